@@ -34,6 +34,7 @@ type cliCase struct {
 	Fam1   string
 	Fam2   string
 	Style  rc.Style
+	Style2 rc.Style // second file: rendered (and alpha-renamed) independently, so names may collide across files
 }
 
 // presetTable is the README's preset table (limits equal the core size).
@@ -98,7 +99,7 @@ func ins(op string, am string, a int64, bm string, b int64) rc.Item {
 
 // family draws a warrior whose fate depends on the options.
 func family(t *rapid.T, label string, legacy bool, m, p, c, l, f int) (rc.Program, string) {
-	fams := []string{"survivor", "timer", "timer", "forkbomb", "sniper", "sniper", "suicide", "random"}
+	fams := []string{"survivor", "timer", "timer", "forkbomb", "sniper", "sniper", "suicide", "random", "random", "random"}
 	fam := rapid.SampledFrom(fams).Draw(t, label+"fam")
 	var items []rc.Item
 	switch fam {
@@ -211,7 +212,28 @@ func genCliCase(t *rapid.T) cliCase {
 	}
 	c.P1, c.Fam1 = family(t, "a", legacy, m, p, cyc, l, f)
 	c.P2, c.Fam2 = family(t, "b", legacy, m, p, cyc, l, m-f)
-	c.Style = rc.Style{Choices: rapid.SliceOfN(rapid.IntRange(0, 63), 4, 16).Draw(t, "choices")}
+	if l >= 3 && rapid.IntRange(0, 7).Draw(t, "sharednames") == 0 {
+		// the two files use the same identifier for different things: an EQU in one,
+		// a label in the other (each file must be assembled on its own)
+		nm := rapid.SampledFrom([]string{"loop", "x", "start", "step"}).Draw(t, "shared")
+		k := int64(rapid.IntRange(1, 3).Draw(t, "sharedval"))
+		withEqu := rc.Program{Items: []rc.Item{
+			{Kind: rc.KEqu, Labels: []string{nm}, Expr: rc.Toks(rc.N(k))},
+			ins("JMP", "$", 0, "$", 0),
+			{Kind: rc.KInstr, Op: "DAT", AMode: "#", A: rc.Toks(rc.ID(nm)), BMode: "#", B: rc.Toks(rc.N(0))},
+		}}
+		withLabel := rc.Program{Items: []rc.Item{
+			{Kind: rc.KInstr, Labels: []string{nm}, Op: "JMP", AMode: "$", A: rc.Toks(rc.ID(nm)), BMode: "$", B: rc.Toks(rc.N(0))},
+			ins("DAT", "#", 0, "#", 0),
+		}}
+		if rapid.Bool().Draw(t, "equfirst") {
+			c.P1, c.Fam1, c.P2, c.Fam2 = withEqu, "shared_name_equ", withLabel, "shared_name_label"
+		} else {
+			c.P1, c.Fam1, c.P2, c.Fam2 = withLabel, "shared_name_label", withEqu, "shared_name_equ"
+		}
+	}
+	c.Style = rc.Style{Choices: rapid.SliceOfN(rapid.IntRange(0, 63), 4, 16).Draw(t, "choices"), Rename: rapid.Bool().Draw(t, "rename1")}
+	c.Style2 = rc.Style{Choices: rapid.SliceOfN(rapid.IntRange(0, 63), 4, 16).Draw(t, "choices2"), Rename: rapid.Bool().Draw(t, "rename2")}
 	return c
 }
 
@@ -251,8 +273,12 @@ func judgeCliCase(c cliCase, rec *hx.Rec) string {
 	_ = os.MkdirAll(dir, 0o755)
 	defer os.RemoveAll(dir)
 	f1, f2 := filepath.Join(dir, "w1.red"), filepath.Join(dir, "w2.red")
-	t1 := rc.Render(c.P1, c.Style, rc.AllFeatures)
-	t2 := rc.Render(c.P2, c.Style, rc.AllFeatures)
+	st1, st2 := c.Style, c.Style2
+	if strings.HasPrefix(c.Fam1, "shared_name") {
+		st1.Rename, st2.Rename = false, false
+	}
+	t1 := rc.Render(c.P1, st1, rc.AllFeatures)
+	t2 := rc.Render(c.P2, st2, rc.AllFeatures)
 	if os.WriteFile(f1, []byte(t1), 0o644) != nil || os.WriteFile(f2, []byte(t2), 0o644) != nil {
 		panic("INCOMPLETE: cannot write warrior files")
 	}
